@@ -7,9 +7,14 @@ from checks import simcommon as sc
 MODULE = "Nice.Props.C13"
 THEOREMS = [f"Nice.Props.C13.{t}" for t in (
     "C13_constants", "C13_no_early_failure", "C13_failure_when_late", "rearm_due_le", "C13_consent_expiry",
-    "C13_answers_keep_alive", "C13_403_immediate", "C13_gate_iff", "C13_consent_interval")]
+    "C13_answers_keep_alive", "C13_403_immediate", "C13_gate_iff", "C13_consent_interval")] + [
+    "Nice.Props.C13Send.C13_send_needs_consent", "Nice.Props.C13Send.analysis_ok"]
 TRUSTED = [
     "Lean 4 kernel; axioms propext, Classical.choice, Quot.sound only (audited every run)",
+    "Nice/Gen/SendMessages.lean: skeleton of nice_agent_send_messages_nonblocking_internal REGENERATED from the source on every run "
+    "(tools/extract_flow.py; tracked: selected_pair.local and selected_pair.remote_consent.have as memory read under the agent lock, "
+    "havocked after every call outside the printed list; events of kind 3 = data handed to pseudo-TCP / a socket); "
+    "C13_send_needs_consent holds for every execution of it (Nice/Model/Flow.lean, kernel-evaluated analysis with a proved soundness theorem)",
     "constants (30 s consent timeout, 25 s Tr, 5 s / 4 s consent interval) are regenerated from agent-priv.h on every run and "
     "pinned by theorem C13_constants",
     "Nice/Model/Consent.lean: hand-written kernels of the consent tick, answer/403 handling, send gate and consent interval; "
